@@ -21,7 +21,7 @@ from prompt_toolkit.input import DummyInput
 from prompt_toolkit.layout import Layout
 from prompt_toolkit.layout.containers import ScrollOffsets, Window
 from prompt_toolkit.layout.controls import BufferControl
-from prompt_toolkit.layout.margins import NumberedMargin
+from prompt_toolkit.layout.margins import ConditionalMargin, NumberedMargin, PromptMargin, ScrollbarMargin
 from prompt_toolkit.data_structures import Point
 from prompt_toolkit.layout.mouse_handlers import MouseHandlers
 from prompt_toolkit.mouse_events import MouseButton, MouseEvent, MouseEventType
@@ -68,7 +68,9 @@ MODELLED = {
         "ConditionalProcessor.apply_transformation", "DynamicProcessor.apply_transformation", "merge_processors",
         "_MergedProcessor.apply_transformation", "_MergedProcessor.apply_transformation.source_to_display",
         "_MergedProcessor.apply_transformation.display_to_source"],
-    "src/prompt_toolkit/layout/margins.py": ["NumberedMargin.get_width", "NumberedMargin.create_margin"],
+    "src/prompt_toolkit/layout/margins.py": ["NumberedMargin.get_width", "NumberedMargin.create_margin",
+                                             "ScrollbarMargin.get_width", "PromptMargin.get_width",
+                                             "ConditionalMargin.get_width"],
     "src/prompt_toolkit/layout/screen.py": ["Char.__init__", "get_display_width"],
     "src/prompt_toolkit/document.py": ["Document.translate_row_col_to_index"],
 }
@@ -97,10 +99,10 @@ LEVEL_NOTE = ("trusted: Lean kernel, axioms propext/Classical.choice/Quot.sound 
               "non-one-column cell on a displayed line that wraps is the KNOWN finding (correspondence + oracle only)")
 RULE = ("exhaustive: every text over {a, newline} (plus tab when a TabsProcessor is applied, plus blank when a "
         "Show*WhiteSpace processor is applied) up to the tier's length bound x content widths 1..4 x heights 1..3 x "
-        "wrapping on/off x 14 window configurations (scroll offsets, previous scroll state, line prefixes of constant "
+        "wrapping on/off x 18 window configurations (left and right margins: Numbered / Scrollbar / Prompt / Conditional on-off; scroll offsets, previous scroll state, line prefixes of constant "
         "and varying width, numbered margin, scroll callbacks, Tabs/BeforeInput/AfterInput/Password/ShowLeading/"
         "ShowTrailing/restyling/Conditional/Dynamic/nested merged processors), each case rendering ALL cursor positions "
-        "one after the other through ONE window (scroll state carries over); a mouse family (4 configurations, every "
+        "one after the other through ONE window (scroll state carries over); a mouse family (5 configurations, every "
         "cell of the window rectangle and one cell around it clicked in the last three states); an any-width family "
         "over {a, double-width, combining accent, raw control character, newline} x widths x heights x wrap x 3 "
         "configurations; a no-wrap family over {a, U+3105, U+AC00, U+1F600, U+0300, U+200B, U+E0100} (code points of "
@@ -112,12 +114,12 @@ RULE = ("exhaustive: every text over {a, newline} (plus tab when a TabsProcessor
 EXHAUSTIVE = True
 EXHAUSTIVE_SCOPE = {
     "quick": "texts over {a,\\n} len<=4 (len<=5 plain configuration; {a,\\n,\\t} or {a,\\n,blank} len<=3 with Tabs / "
-             "white-space processors) x w 1..4 x h 1..3 x wrap x 14 configurations, all cursors; mouse: len<=3 x w 1..4 "
-             "x h 1..2 x wrap x 4 configurations, all cells clicked; any widths: texts over {a,wide,combining,^A,\\n} "
+             "white-space processors) x w 1..4 x h 1..3 x wrap x 18 configurations, all cursors; mouse: len<=3 x w 1..4 "
+             "x h 1..2 x wrap x 5 configurations, all cells clicked; any widths: texts over {a,wide,combining,^A,\\n} "
              "len<=3 x w 1..3 x h 1..2 x wrap x 3 configurations, all cursors; all planes, no wrap: texts over "
              "{a,U+3105,U+AC00,U+1F600,U+0300,U+200B,U+E0100} len<=2 x w 1..3 x h 1..2 x 3 configurations",
     "thorough": "texts over {a,\\n} len<=6 (len<=7 for 3 configurations; len<=4 with TabsProcessor, len<=5 with "
-                "white-space processors) x w 1..4 x h 1..3 x wrap x 14 configurations, all cursors; mouse: len<=4; any "
+                "white-space processors) x w 1..4 x h 1..3 x wrap x 18 configurations, all cursors; mouse: len<=4; any "
                 "widths: len<=4 x w 1..4; all planes, no wrap: len<=3"}
 TRUSTED = ["harness/c11.py compares, after every Window.write_to_screen: vertical/horizontal/intra-line scroll, the "
            "content cursor, Screen.cursor_positions[window], render_info.visible_line_to_row_col and _rowcol_to_yx "
@@ -139,7 +141,7 @@ ASSUMPTIONS = ["float: window_size / 2 is exact and int() truncates toward zero 
                "control characters in prompts)",
                "ShowTrailingWhiteSpaceProcessor looks at the LAST FRAGMENT, the model at the text: equal when it is "
                "applied first (single lexer fragment), which is how the correspondence configures it",
-               "align = LEFT, no menus / floats, no right margins, cursorline / cursorcolumn (styles only) off",
+               "align = LEFT, no menus / floats, cursorline / cursorcolumn (styles only) off",
                "wrapping theorems for non-one-column cells assume the Regular-lines hypothesis (see PARTIAL_SCOPE); "
                "mouse and injectivity theorems assume one-column cells"]
 PARTIAL_SCOPE = ["wrapping AND a double-width / zero-width / control character on a DISPLAYED line at or above the "
@@ -158,8 +160,10 @@ PARTIAL_SCOPE = ["wrapping AND a double-width / zero-width / control character o
                  "(with combining characters several (row, col) share a cell); SCROLL_UP / SCROLL_DOWN, MOUSE_UP / "
                  "double click / drag selection not modelled",
                  "NumberedMargin: rows proved for vertical_scroll_2 = 0 (with an over-tall cursor line the margin shows "
-                 "that line's number on the first row: correspondence only); relative numbers, tildes, ScrollbarMargin, "
-                 "PromptMargin, ConditionalMargin, right margins not modelled",
+                 "that line's number on the first row: correspondence only); relative numbers, tildes not modelled; "
+                 "ScrollbarMargin / PromptMargin / ConditionalMargin on either side: only their WIDTHS are modelled (the "
+                 "width bookkeeping of _write_to_screen_at_index: body = window - all margins, used for create_content, "
+                 "_scroll and _copy_body alike; theorem render_body_geometry), not what they draw",
                  "processors not modelled: HighlightSelection / DisplayMultipleCursors with an active selection / "
                  "multiple cursors (they append one blank), HighlightSearch with a search text (restyle only), "
                  "AppendAutoSuggestion (an AfterInput whose text depends on the cursor), ReverseSearchProcessor, ShowArg",
@@ -198,6 +202,42 @@ def make_processor(p):
 
 def make_processors(procs):
     return [make_processor(p) for p in procs]
+
+
+def make_margin(m):
+    """["N"] | ["S"] | ["P", text] | ["C", enabled, inner]"""
+    if m[0] == "N":
+        return NumberedMargin()
+    if m[0] == "S":
+        return ScrollbarMargin()
+    if m[0] == "P":
+        return PromptMargin(get_prompt=lambda t=m[1]: [("", t)])
+    if m[0] == "C":
+        return ConditionalMargin(make_margin(m[2]), filter=Condition(lambda b=m[1]: b))
+    raise ValueError(m)
+
+
+def margin_width(m, nlines):
+    """width of a margin spec (used only to SIZE the generated windows so that the body is >= 1 wide)"""
+    if m[0] == "N":
+        return max(3, len(str(nlines)) + 1)
+    if m[0] == "S":
+        return 1
+    if m[0] == "P":
+        return get_cwidth(m[1])
+    return margin_width(m[2], nlines) if m[1] else 0
+
+
+def enc_margin(m):
+    if m[0] in "NS":
+        return [m[0]]
+    if m[0] == "P":
+        return ["P", enc_str(m[1])]
+    return ["C", "1" if m[1] else "0"] + enc_margin(m[2])
+
+
+def enc_margins(ms):
+    return " ".join([str(len(ms))] + [t for m in ms for t in enc_margin(m)])
 
 
 _APP = None
@@ -241,7 +281,9 @@ class Rig:
         self.win = Window(
             self.control,
             wrap_lines=Condition(lambda: self.cur["wrap"]),
-            left_margins=[NumberedMargin()] if case.get("margin") else [],
+            left_margins=([NumberedMargin()] if case.get("margin") else []) +
+            [make_margin(m) for m in case.get("lefts", [])],
+            right_margins=[make_margin(m) for m in case.get("rights", [])],
             scroll_offsets=ScrollOffsets(top=so[0], bottom=so[1], left=so[2], right=so[3]),
             allow_scroll_beyond_bottom=bool(case.get("beyond", False)),
             get_line_prefix=glp,
@@ -343,8 +385,8 @@ def observe(rig, step, sc, wp):
         row = sc.data_buffer[yoff + y]
         rows.append(enc_row([row[xoff + x].char for x in range(max(cw, 0))]))
     toks.append(" ".join(rows))
-    # the cells of the numbered margin, row by row
-    mw = xoff - wp.xpos
+    # the cells of the numbered margin (the first left margin), row by row
+    mw = win._get_margin_width(win.left_margins[0]) if rig.case.get("margin") else 0
     if mw > 0:
         for y in range(wp.height):
             row = sc.data_buffer[yoff + y]
@@ -406,12 +448,13 @@ def model_lines(case):
         "1" if case.get("margin") else "0",
         ("1 " + " ".join(enc_str(p) for p in pre)) if pre is not None else "0 s: s: s:"])
     procs = enc_procs(case.get("procs", []))
+    margins = enc_margins(case.get("lefts", [])) + " " + enc_margins(case.get("rights", []))
     cbs = case.get("cbs") or [False, False]
     out = [f"init {init[0]} {init[1]} {init[2]}"]
     for st in case["ops"]:
         cb = st.get("cb") or [None, None]
         cbt = " ".join(str(cb[i]) if cbs[i] else "N" for i in (0, 1))
-        out.append(f"render {st['w']} {st['h']} {'1' if st['wrap'] else '0'} {cfg} {cbt} {procs} "
+        out.append(f"render {st['w']} {st['h']} {'1' if st['wrap'] else '0'} {cfg} {cbt} {margins} {procs} "
                    f"{enc_str(st['text'])} {st['cur']}")
         wp = WritePosition(case.get("xpos", 0), case.get("ypos", 0), st["w"], st["h"])
         for (y, x) in step_clicks(st, wp):
@@ -530,7 +573,7 @@ def check_render(rig, step, sc, wp):
         v.append({"signature": f"{site} | {cond}",
                   "msg": f"{msg}: text={text!r} cur={cur} w={step['w']} h={step['h']} wrap={step['wrap']} "
                          f"vs={win.vertical_scroll} hs={win.horizontal_scroll} vs2={win.vertical_scroll_2} "
-                         f"cfg={ {k: case.get(k) for k in ('so', 'margin', 'prefix', 'procs', 'beyond', 'init')} }"})
+                         f"cfg={ {k: case.get(k) for k in ('so', 'margin', 'lefts', 'rights', 'prefix', 'procs', 'beyond', 'init')} }"})
 
     xoff, yoff, cw, h = ri._x_offset, ri._y_offset, ri.window_width, wp.height
     cp = sc.cursor_positions.get(win)
@@ -598,7 +641,7 @@ def check_render(rig, step, sc, wp):
                 break
     # (5b) numbered margin: margin row y shows lineno + 1 on the first screen row of a document line and
     #      nothing on wrapped continuation rows / below the content (stated for vertical_scroll_2 == 0)
-    mw = xoff - wp.xpos
+    mw = win._get_margin_width(win.left_margins[0]) if case.get("margin") else 0
     if case.get("margin") and mw > 0 and win.vertical_scroll_2 == 0:
         for yy in range(h):
             shown = "".join(sc.data_buffer[yoff + yy][wp.xpos + x].char for x in range(mw)).strip()
@@ -660,11 +703,20 @@ CFGS = [
     {"procs": [["M", [["B", "$ "], ["M", [["T", 3, "|", "."], ["I", 2]]]]], ["C", "dyn", True, ["A", "<"]]],
      "so": [1, 0, 0, 1]},
 ]
+# right (and further left) margins: ScrollbarMargin alone, Numbered + Scrollbar, two right margins, PromptMargin /
+# ConditionalMargin on either side -- the body is the window minus ALL of them
+CFGS += [
+    {"rights": [["S"]]},
+    {"margin": True, "rights": [["S"]], "so": [0, 1, 0, 1], "xpos": 1},
+    {"rights": [["S"], ["C", True, ["P", "ab"]]], "so": [1, 0, 1, 1], "init": [2, 4, 1]},
+    {"lefts": [["P", ">"], ["C", False, ["S"]]], "rights": [["C", False, ["S"]], ["S"]], "prefix": ["", "", "-"]},
+]
 # alphabet of the configurations with white-space processors
 ALPHA_SP = ["a", "\n", " "]
 # configurations of the exhaustive mouse family (every cell of the window is clicked)
 MOUSE_CFGS = [
     {},
+    {"margin": True, "rights": [["S"], ["P", "ab"]], "xpos": 1, "ypos": 1},
     {"margin": True, "xpos": 2, "ypos": 1, "so": [1, 0, 0, 1]},
     {"procs": [["B", "> "], ["T", 3, "|", "-"]], "prefix": ["", ".", "+"]},
     {"procs": [["T", 2, "|", "-"], ["A", "<"]], "init": [1, 2, 1], "xpos": 1},
@@ -675,6 +727,7 @@ def extra_width(cfg, nlines=1):
     pre = cfg.get("prefix")
     pw = max(get_cwidth(p) for p in pre) if pre else 0
     mw = max(3, len(str(nlines)) + 1) if cfg.get("margin") else 0
+    mw += sum(margin_width(m, nlines) for m in cfg.get("lefts", []) + cfg.get("rights", []))
     return pw + mw
 
 
@@ -723,6 +776,11 @@ def random_case(rng, alpha, tab_always=False, wide_cfg=False):
            "prefix": rng.choice(RAND_PREFIX + (WIDE_PREFIX if wide_cfg else [])), "margin": rng.random() < 0.3,
            "procs": rng.choice(RAND_CFG_PROCS + (WIDE_PROCS if wide_cfg else [])), "beyond": rng.random() < 0.3,
            "xpos": rng.choice([0, 0, 3]), "ypos": rng.choice([0, 0, 2])}
+    if rng.random() < 0.3:
+        cfg["rights"] = rng.choice([[["S"]], [["S"], ["S"]], [["P", "ab"], ["S"]], [["C", False, ["S"]], ["P", "x"]],
+                                    [["C", True, ["N"]]]])
+    if rng.random() < 0.1:
+        cfg["lefts"] = rng.choice([[["P", "> "]], [["S"]], [["C", True, ["P", "ab"]], ["C", False, ["N"]]]])
     if rng.random() < 0.2:
         cfg["cbs"] = rng.choice([[True, False], [False, True], [True, True]])
     if tab_always and not any(p[0] == "T" for p in flat_procs(cfg["procs"])):
@@ -854,7 +912,7 @@ def distribution(cases):
     d = {"states": 0, "sub": {}, "wrap": {"on": 0, "off": 0}, "width": {}, "height": {}, "lines": {}, "cfg": {}}
     for c in cases:
         d["sub"][c.get("sub", "width-1")] = d["sub"].get(c.get("sub", "width-1"), 0) + 1
-        for k in ("prefix", "margin", "procs", "beyond", "init", "cbs"):
+        for k in ("prefix", "margin", "lefts", "rights", "procs", "beyond", "init", "cbs"):
             if c.get(k):
                 d["cfg"][k] = d["cfg"].get(k, 0) + 1
         if any(c.get("so", [0])):
